@@ -192,13 +192,17 @@ func verifyLegacy(pub *ecdsa.PublicKey, hash, sig []byte) bool {
 		return false
 	}
 
-	var x *big.Int
+	var x, y *big.Int
 	if opt, ok := c.(combinedMult); ok {
-		x, _ = opt.CombinedMult(pub.X, pub.Y, s.Bytes(), t.Bytes())
+		x, y = opt.CombinedMult(pub.X, pub.Y, s.Bytes(), t.Bytes())
 	} else {
 		x1, y1 := c.ScalarBaseMult(s.Bytes())
 		x2, y2 := c.ScalarMult(pub.X, pub.Y, t.Bytes())
-		x, _ = c.Add(x1, y1, x2, y2)
+		x, y = c.Add(x1, y1, x2, y2)
+	}
+	// [s]G + [t]P is the point at infinity: there is no x1 to compare with
+	if x.Sign() == 0 && y.Sign() == 0 {
+		return false
 	}
 
 	x.Add(x, e)
